@@ -293,12 +293,61 @@ def childRecOf (j : Json) : ChildRec :=
     revoked := (jfields (jget j "keys")).filterMap fun (k, v) =>
       if jstr v == "revoked" then some (tok k) else none }
 
+/-- `[key, class, {"atoms"}, [limit atoms]]` -/
+def certOf (child : String) (j : Json) : Option KM.Proto.Cert :=
+  match jarr j with
+  | k :: cl :: r :: l :: _ => some (jtok k, jstr cl, child, jatoms r, (jarr l).filterMap jnat?)
+  | _ => none
+
+/-- `[key, class, {"atoms"}, [limit atoms], expiring]` -/
+def suspOf (child : String) (j : Json) : Option KM.Proto.SuspCert :=
+  match jarr j with
+  | [k, cl, r, l, e] =>
+    some { key := jtok k, cls := jstr cl, child := child, res := jatoms r,
+           limit := (jarr l).filterMap jnat?, expiring := (jbool? e).getD false }
+  | _ => none
+
 open KM.Proto in
 def caOf (st : Json) (h : String) : Ca :=
-  let children := (jfields (jpath st ["reg", h])).map fun (c, d) => (c, childRecOf d)
-  { handle := h, idKey := jtok (jpath st ["ids", h]), children := children,
+  let cj := jfields (jpath st ["reg", h])
+  { handle := h, idKey := jtok (jpath st ["ids", h]),
+    children := cj.map fun (c, d) => (c, childRecOf d),
     classes := (jfields (jpath st ["cls", h])).map fun (c, r) => (c, jatoms r),
-    certs := children.flatMap fun (c, d) => d.inUse.map fun (k, cl) => (k, cl, c, []) }
+    certs := cj.flatMap fun (c, d) => (jarr (jget d "iss")).filterMap (certOf c),
+    suspendedCerts := cj.flatMap fun (c, d) => (jarr (jget d "sus")).filterMap (suspOf c) }
+
+/-! Projection of a CA for comparing the model's state after a request with the observed one:
+per child (sorted by name) the suspension flag, the keys in use and revoked, the issued and the
+suspended certificates in its slots – canonical key tokens, everything sorted. -/
+structure ChildCerts where
+  name : String
+  susp : Bool
+  inUse : List (Nat × String)
+  revoked : List Nat
+  iss : List (Nat × String × List Nat × List Nat)
+  sus : List (Nat × String × List Nat × List Nat × Bool)
+  deriving BEq, Repr
+
+/-- The children whose projections differ, model's and implementation's. -/
+def projDiff (mine theirs : List ChildCerts) : String :=
+  let diff := (mine.zip theirs).filter fun (xy : ChildCerts × ChildCerts) => xy.1 != xy.2
+  let m1 : List ChildCerts := diff.map fun xy => xy.1
+  let m2 : List ChildCerts := diff.map fun xy => xy.2
+  s!"model {repr m1} implementation {repr m2}"
+
+def ltKS (x y : Nat × String) : Bool := x.1 < y.1 || (x.1 == y.1 && x.2 < y.2)
+
+open KM.Proto in
+def caProj (ca : Ca) : List ChildCerts :=
+  (sortBy (fun (a b : Handle × ChildRec) => a.1 < b.1) ca.children).map fun (c, d) =>
+    { name := c, susp := d.suspended, inUse := sortBy ltKS d.inUse.eraseDups,
+      revoked := sortNat d.revoked.eraseDups,
+      iss := sortBy (fun a b => ltKS (a.1, a.2.1) (b.1, b.2.1))
+        (((ca.certs.filter fun ce => ce.2.2.1 == c).map fun ce =>
+          (ce.1, ce.2.1, sortNat ce.2.2.2.1, sortNat ce.2.2.2.2)).eraseDups),
+      sus := sortBy (fun a b => ltKS (a.1, a.2.1) (b.1, b.2.1))
+        (((ca.suspendedCerts.filter fun s => s.child == c).map fun s =>
+          (s.key, s.cls, sortNat s.res, sortNat s.limit, s.expiring)).eraseDups) }
 
 open KM.Proto in
 def payloadOf (pl : Json) : Payload :=
@@ -411,30 +460,63 @@ def step6492 (a : Acc) (caName : String) (flip : Bool) (obs : Json) : Acc :=
   let a := if orc.isEmpty then a else { a with fails := a.fails ++ ["ORACLE " ++ " ".intercalate orc] }
   -- model vs implementation
   let tagBase := if flip then "flip6492" else "send6492"
+  -- what the automatic un-suspension does (model branch): the fates of the sender's keys
+  let unsusp : String := match sg with
+    | some g =>
+      match lookup ca.children g.body.sender with
+      | some c =>
+        if caName != "ta" && c.suspended && g.signer == c.idKey && g.fresh then
+          match unsuspend ca g.body.sender c with
+          | none => "+unsuspend-fails"
+          | some _ =>
+            let fs := sortStr ((c.inUse.map fun ku => match fate ca c ku with
+              | .keep => "keep" | .reissue _ _ => "reissue" | .drop => "drop" | .fail => "fail").eraseDups)
+            "+unsuspend:" ++ (if fs.isEmpty then "nokeys" else ",".intercalate fs)
+        else ""
+      | none => ""
+    | none => ""
+  -- the state after the request: the model's against the observed one (the sender's issued and
+  -- suspended certificates, its keys and its suspension flag; every other child's as well)
+  let stateCheck (a : Acc) : Acc :=
+    if caName == "ta" || !(ret.startsWith "reply:" || ret.startsWith "err:") then a else
+    let st' := jget obs "st"
+    let after := caProj (caOf (if jisNull st' then st else st') caName)
+    let mine := caProj ca'
+    if mine == after then a
+    else
+      a.fail s!"state after the request differs: {projDiff mine after}"
   match out with
   | .refused r =>
-    let a := a.tag s!"{tagBase}/refused-{refusalTag r}"
+    let a := a.tag s!"{tagBase}/refused-{refusalTag r}{unsusp}{if ca' != ca then "-changed" else ""}"
     let a := if replied then a.fail s!"model refuses ({refusalTag r}), implementation replied {ret}" else a
-    if r != .processing && !chg.isEmpty then a.fail s!"refused request changed {chg}" else a
+    let a := if r != .processing && !chg.isEmpty then a.fail s!"refused request changed {chg}" else a
+    if replied then a else stateCheck a
   | .replied m =>
     let kind := match m.body.payload with
       | .listResponse _ => "listresp" | .issueResponse _ _ _ => "issueresp"
       | .revokeResponse _ _ => "revokeresp" | _ => "other"
-    let a := a.tag s!"{tagBase}/{kind}{if ca' != ca then "-changed" else ""}"
+    let a := a.tag s!"{tagBase}/{kind}{unsusp}{if ca' != ca then "-changed" else ""}"
     let a := if ret != s!"reply:{kind}" then a.fail s!"model replies {kind}, implementation {ret}" else a
     -- reply content
     let rp := jpath obs ["reply", "pl"]
-    match m.body.payload with
+    let a := match m.body.payload with
     | .listResponse cls =>
-      let mine := sortBy (fun x y => x.1 < y.1) (cls.map fun (c, r, ks) => (c, sortNat r, sortNat ks))
+      -- per class: entitlement, and every listed certificate with the resources it carries
+      let mine := sortBy (fun x y => x.1 < y.1) (cls.map fun (c, r, kcs) =>
+        (c, sortNat r, sortBy (fun x y => x.1 < y.1) (kcs.map fun (k, cr) => (k, sortNat cr))))
       let theirs := sortBy (fun x y => x.1 < y.1) ((jarr (jget rp "classes")).map fun c =>
-        (jstr (jget c "cls"), sortNat (jatoms (jget c "res")), sortNat ((jarr (jget c "keys")).map jtok)))
+        (jstr (jget c "cls"), sortNat (jatoms (jget c "res")),
+          sortBy (fun x y => x.1 < y.1) ((jarr (jget c "certs")).filterMap fun ce =>
+            match jarr ce with
+            | k :: r :: _ => some (jtok k, sortNat (jatoms r))
+            | _ => none)))
       if replied && mine != theirs then a.fail s!"list response differs: model {repr mine} implementation {repr theirs}" else a
     | .issueResponse _ k r =>
       if replied && (jtok (jget rp "key") != k || sortNat (jatoms (jget rp "res")) != sortNat r)
       then a.fail "issue response differs" else a
     | .revokeResponse _ k => if replied && jtok (jget rp "key") != k then a.fail "revoke response differs" else a
     | _ => a
+    if ret != s!"reply:{kind}" then a else stateCheck a
 
 open KM.Proto in
 def step8181 (a : Acc) (publisher : String) (flip : Bool) (obs : Json) : Acc :=
@@ -663,6 +745,36 @@ def step (st : St) (op : List String) (obs : Json) : St × String :=
       let now := jtok (jpath obs ["st", "reg", p, c, "id"])
       let a := a.tag (if cur == was then "childid/same" else "childid/replaced")
       if ret == "ok" && now != cur then a.fail "childid: registered key is not the child's current key" else a
+    -- operator actions on a child: suspension, entitlement, manual un-suspension (model: `suspendChild`,
+    -- `updateChildResources`, `unsuspend`) – the state they lead to is compared as after a request
+    | "childsuspend" :: p :: c :: _ | "childres" :: p :: c :: _ | "childunsuspend" :: p :: c :: _ =>
+      let st' := jget obs "st"
+      if jisNull st' || jisNull a.st.cms || !(jkeys (jget a.st.cms "ids")).contains p then a else
+      let ca := caOf a.st.cms p
+      let after := caOf st' p
+      match KM.Proto.lookup ca.children c with
+      | none => a.tag s!"{opk}/no-such-child"
+      | some rec =>
+        let (pred, tag) : Option KM.Proto.Ca × String :=
+          if opk == "childsuspend" then
+            let exp (k : Nat) : Bool := after.suspendedCerts.any fun s => s.key == k && s.expiring
+            let ca' := ca.suspendChild c exp
+            (some ca', if rec.suspended then "already-suspended" else if ca' == ca then "nothing-to-suspend" else "moved")
+          else if opk == "childres" then
+            (some (ca.updateChildResources c (((op.getD 3 "").splitOn ",").filterMap String.toNat?)),
+              if rec.suspended then "while-suspended" else "active")
+          else if !rec.suspended then (some ca, "not-suspended")
+          else match KM.Proto.unsuspend ca c rec with
+            | none => (none, "fails")
+            | some (ca', _) => (some ca', "done")
+        let a := a.tag s!"{opk}/{tag}"
+        match pred with
+        | none => if ret == "ok" then a.fail s!"{opk}: model fails, implementation succeeded" else a
+        | some ca' =>
+          if ret != "ok" then (if opk == "childres" then a else a.fail s!"{opk}: model succeeds, implementation {ret}")
+          else if caProj ca' == caProj after then a
+          else
+            a.fail s!"{opk}: state differs: {projDiff (caProj ca') (caProj after)}"
     | "pubreadd" :: c :: _ =>
       if jisNull (jget obs "st") || jisNull a.st.cms then a else
       let cur := jtok (jpath obs ["st", "ids", c])
